@@ -34,11 +34,11 @@ func (o *Overlay) Get(k []byte) ([]byte, error) {
 	}
 	return o.Base.Get(k)
 }
-func (o *Overlay) Set(k, v []byte) error  { return o.Top.Set(k, v) }
-func (o *Overlay) Delete(k []byte) error  { return o.Top.Delete(k) }
-func (o *Overlay) Exist(k []byte) bool    { return o.Top.Exist(k) || o.Base.Exist(k) }
-func (o *Overlay) Clear(p []byte) error   { return o.Top.Clear(p) }
-func (o *Overlay) Close() error           { return nil }
+func (o *Overlay) Set(k, v []byte) error { return o.Top.Set(k, v) }
+func (o *Overlay) Delete(k []byte) error { return o.Top.Delete(k) }
+func (o *Overlay) Exist(k []byte) bool   { return o.Top.Exist(k) || o.Base.Exist(k) }
+func (o *Overlay) Clear(p []byte) error  { return o.Top.Clear(p) }
+func (o *Overlay) Close() error          { return nil }
 func (o *Overlay) Filter(p []byte) (map[string][]byte, error) {
 	m, err := o.Base.Filter(p)
 	if err != nil {
